@@ -27,7 +27,7 @@ from __future__ import annotations
 import itertools, math, time
 from fractions import Fraction as Fr
 import torch
-from ..common import (Rng, Report, call_real, dec_out, enc_args, enc_tensor, run_driver, budget, flat_out, err_kind)
+from ..common import (Rng, Report, call_real, dec_out, enc_args, enc_tensor, run_driver, budget, flat_out, err_kind, outcomes_agree)
 import torcheval.metrics as M
 import torcheval.metrics.functional as F
 from torcheval.metrics.functional.statistical.wasserstein import wasserstein_1d
@@ -1560,14 +1560,188 @@ def rounding_model_stream(rep: Report, rng: Rng):
                                      "worst_error_over_proved_bound": {k: float(f"{v:.3g}") for k, v in sorted(worst.items())}}
 
 
+# ------------------------------------------------------------------ kernel stream (generated terms vs the real kernels)
+# (T) harness/translators/kernels.py translates the private kernels of mean / sum / auc / mean_squared_error / r2_score / psnr from
+# their source into terms of TE/Model/TExpr.lean (TE/Gen/KernelsAgg.lean, regenerated here); TE/Props/C07_Kernels.lean proves the
+# generated terms equal to the models of TE/Model/Agg.lean; this stream runs the generated terms against the REAL kernels.
+
+KERNEL_MODULES = {"aggregation/mean": "torcheval.metrics.functional.aggregation.mean", "aggregation/sum": "torcheval.metrics.functional.aggregation.sum",
+                  "aggregation/auc": "torcheval.metrics.functional.aggregation.auc",
+                  "regression/mean_squared_error": "torcheval.metrics.functional.regression.mean_squared_error",
+                  "regression/r2_score": "torcheval.metrics.functional.regression.r2_score", "image/psnr": "torcheval.metrics.functional.image.psnr"}
+KERNEL_EXACT_TAGS = {"exh", "exh-w", "grid", "dyadic", "err", "empty", "zero-weight", "int-input", "scalar-weight"}
+
+
+def translate(rep: Report):
+    """(T) regenerate lean/TE/Gen/KernelsAgg.lean from the kernels' source (TE.Props.C07_Kernels is proved about it)"""
+    from ..translators import kernels
+    from ..common import LEAN
+    rows = kernels.generate(rep, family="C07")
+    props = (LEAN / "TE" / "Props" / "C07_Kernels.lean").read_text()
+    for r in rows:
+        if r["term"] is not None and f"Gen.Agg.k_{r['id']}" not in props.replace(f"Gen.Agg.k_{r['id']}_", ""):
+            rep.broke(f"kernels:{r['id']}", f"kernel {r['func']} is translated but no theorem of TE/Props/C07_Kernels.lean is about Gen.Agg.k_{r['id']}", {})
+
+
+def kenc(v) -> str:
+    """typed argument syntax of the `gen.<kernel>` requests (TE/Driver/Kernels.lean)"""
+    from ..common import fq
+    if isinstance(v, torch.Tensor):
+        return enc_tensor(v)
+    if v is None:
+        return "none"
+    if isinstance(v, bool):
+        return "b.true" if v else "b.false"
+    if isinstance(v, int):
+        return f"i.{v}"
+    if isinstance(v, float):
+        return "q." + fq(v)
+    if isinstance(v, str):
+        return "s." + v
+    raise TypeError(f"kernel argument {v!r}")
+
+
+def kernel_rows():
+    import importlib
+    from ..translators import kernels
+    rows = {r["id"]: r for r in kernels.facts(family="C07")}
+    for r in rows.values():
+        if "fn" not in r:
+            try:
+                r["fn"] = getattr(importlib.import_module(KERNEL_MODULES[r["module"]]), r["func"], None)
+            except Exception:  # noqa: BLE001
+                r["fn"] = None
+    return rows
+
+
+def kernel_calls(rows, fn, kw):
+    """the kernel calls behind one functional case: [(kernel id, kwargs, real outcome, post)] — update kernel(s) on the case's
+    arguments, then the compute kernel on what the REAL update returned; `post` maps the generated term's answer to the value
+    to compare (PSNR: the term is run up to `log10`)."""
+    out = []
+
+    def add(kid, a, post=None):
+        r = rows.get(kid)
+        if r is None or r["term"] is None or r.get("fn") is None:
+            return None
+        if any(isinstance(v, torch.Tensor) and v.ndim > 2 for v in a.values()):
+            return None                                     # the driver's tensors have rank <= 2
+        real = call_real(r["fn"], **a)
+        out.append((kid, a, real, post))
+        return real
+
+    if fn in ("mean", "sum"):
+        a = {"input": kw["input"], "weight": kw.get("weight", 1.0)}
+        if fn == "mean":
+            add("mean_update", a), add("mean_compute", a)
+        else:
+            add("sum_update", a)
+    elif fn == "auc":
+        x, y, ro = kw["x"], kw["y"], bool(kw.get("reorder", False))
+        if x.shape == y.shape:
+            add("auc_compute", {"x": x, "y": y, "reorder": ro})
+    elif fn == "mean_squared_error":
+        mo = kw.get("multioutput", "uniform_average")
+        a = {"input": kw["input"], "target": kw["target"], "sample_weight": kw.get("sample_weight")}
+        real = add("mean_squared_error_update", a)
+        if real is not None and real[0] == "ok":
+            add("mse__update", a)
+            if mo in ("raw_values", "uniform_average"):
+                add("mean_squared_error_compute", {"sum_squared_error": real[1][0], "multioutput": mo, "sum_weight": real[1][1]})
+    elif fn == "r2_score":
+        mo, p = kw.get("multioutput", "uniform_average"), kw.get("num_regressors", 0)
+        a = {"input": kw["input"], "target": kw["target"]}
+        real = add("r2_score_update", a)
+        if real is not None and real[0] == "ok":
+            add("r2__update", a)
+            if mo in ("raw_values", "uniform_average", "variance_weighted") and p >= 0:
+                b = {"sum_squared_obs": real[1][0], "sum_obs": real[1][1], "rss": real[1][2], "num_obs": real[1][3],
+                     "multioutput": mo, "num_regressors": p}
+                rc = add("r2_score_compute", b)
+                if rc is not None and rc[0] == "ok":
+                    add("r2__compute", b)
+    elif fn.startswith("peak_signal_noise_ratio"):
+        a = {"input": kw["input"], "target": kw["target"]}
+        real = add("psnr_update", a)
+        if real is not None and real[0] == "ok" and kw["target"].numel() > 0:
+            dr = kw.get("data_range")
+            if dr is None or dr > 0:
+                rng_t = (kw["target"].max() - kw["target"].min()) if dr is None else torch.tensor(dr, dtype=kw["target"].dtype)
+                add("psnr_compute", {"sum_square_error": real[1][0], "num_observations": real[1][1], "data_range": rng_t}, "10log10")
+    return out
+
+
+def _post_10log10(model):
+    if model[0] != "ok":
+        return model
+    vals = []
+    for shape, data in model[1]:
+        vals.append((shape, [(10 * math.log10(a) if a > 0 else (-math.inf if a == 0 else NAN)) if isinstance(a, Fr) else
+                             (math.inf if a == math.inf else NAN) for a in data]))
+    return ("ok", vals)
+
+
+def kernel_stream(rep: Report, rng: Rng):
+    """the GENERATED term of every translated kernel (request `gen.<kernel>`) against the REAL private kernel function on the same
+    arguments: grid / dyadic values whose sums are exact in the working precision, so that the only rounding is the final division
+    (tolerance of the dtype, `common.tol_for`).  A disagreement is a broken correspondence between the source and its translation
+    (`kernels:<name>`), never a violation by itself."""
+    rows = kernel_rows()
+    cap = 12000 if rep.tier == "thorough" else 2500
+    per_fn = {}
+    for fn, kw, tag in all_cases(rng, rep.tier):
+        base = "peak_signal_noise_ratio" if fn.startswith("peak_signal_noise_ratio") else fn
+        if base not in ("mean", "sum", "auc", "mean_squared_error", "r2_score", "peak_signal_noise_ratio") or tag[0] not in KERNEL_EXACT_TAGS:
+            continue
+        per_fn.setdefault(base, []).append((fn, kw, tag))
+    calls = []
+    for base, cs in per_fn.items():
+        # an evenly spaced sample over the generators' whole sequence (1-D and 2-D, weighted and unweighted, every dtype) plus
+        # every rejected / degenerate case
+        keep = max(1, cap // 6)
+        stride = max(1, len(cs) // keep)
+        for i, (fn, kw, tag) in enumerate(cs):
+            if i % stride == 0 or tag[0] in ("err", "empty", "zero-weight"):
+                calls += kernel_calls(rows, fn, kw)
+    # a ValueError / TypeError of an update kernel comes from its `_input_check`, which the translation skips (C18)
+    calls = [c for c in calls if not (c[2][0] == "err" and c[2][1] in ("ValueError", "TypeError") and c[0].endswith("_update")
+                                      and c[0] not in ("mean_update", "sum_update"))]
+    lines = [f"fn gen.{kid} " + " ".join(f"{k}={kenc(v)}" for k, v in a.items()) for kid, a, _, _ in calls]
+    outs = run_driver(lines)
+    nbad = {}
+    for (kid, a, real, post), line, o in zip(calls, lines, outs):
+        rep.count(f"kernel-stream:{kid}")
+        if real[0] == "err":
+            rep.count(f"kernel-stream:err:{real[1]}")
+        rep.case(nontrivial_key=("kernel", line), sample={"request": line[:300], "model": o[:200]} if rep.dist.get(f"kernel-stream:{kid}") == 1 else None)
+        rep.traces += 1
+        model = dec_out(o)
+        if post == "10log10":
+            model = _post_10log10(model)
+        dt = dtype_of(a)
+        msg = outcomes_agree(real, model, tol=None if post is None else 50 * TOL[dt], strict_kind=True)
+        if msg is None:
+            continue
+        nbad[kid] = nbad.get(kid, 0) + 1
+        if nbad[kid] <= 3:
+            rep.broke(f"kernels:{kid}", f"the term generated from the source of {rows[kid]['module']}.{rows[kid]['func']} and the real function disagree ({msg}) "
+                      f"on {line[:400]}", {"kind": "kernel", "kernel": kid, "request": line, "generated": o,
+                                           "real": real[1] if real[0] == "err" else [t.tolist() for t in real[1]]})
+    untr = [k for k, r in rows.items() if r["term"] is None]
+    rep.streams["kernels"] = {"cases": len(calls), "disagreements": sum(nbad.values()), "untranslated": untr,
+                              "partial": {k: r["partial"] for k, r in rows.items() if r.get("partial")}}
+
+
 def run(rep: Report):
     rng = Rng(rep.seed * 1000003 + 7)
+    from . import c07_frechet; c07_frechet.run(rep)      # coordinator's module (a dozen cheap cases, first so that no budget starves it)
     check_functional(rep, all_cases(rng, rep.tier), "functional")
     class_programs(rep, rng)
     cov_streams(rep, rng)
     fad_streams(rep, rng)
     conditioning_stream(rep, Rng(rep.seed * 7919 + 13))
     rounding_model_stream(rep, Rng(rep.seed * 104729 + 29))
+    kernel_stream(rep, Rng(rep.seed * 1000003 + 777))
 
 
 def search(rep: Report):
@@ -1613,6 +1787,10 @@ def replay(payload) -> bool:
     round-model -> rm_verdict (the bound proved in TE/Props/C07_Round.lean)."""
     if not isinstance(payload, dict) or payload.get("kind", "failing-input") != "failing-input":
         _nothing(f"payload kind {payload.get('kind') if isinstance(payload, dict) else None!r} carries no concrete input")
+    rp = payload.get("replay") or {}
+    if isinstance(rp, dict) and rp.get("kind") == "frechet-rank":
+        from . import c07_frechet
+        return c07_frechet.replay(rp)
     r = payload.get("replay")
     if not isinstance(r, dict) or not r:
         _nothing("the payload carries no replay dict")
